@@ -581,6 +581,15 @@ def run_tc_sequence(seq, rec, rng, label=""):
                     return False
         return True
 
+    # times and emulsions stay paired from the start: a constructor call with lists that cannot be paired (more
+    # emulsions than times, more times than emulsions, times without emulsions) has no list model - it must be refused,
+    # not answered with a silently shortened time course
+    n_e, n_t = [(3, 2), (1, 3), (2, 0), (0, 1), (4, 3)][int(rng.integers(5))]
+    bad = common.monitored(rec, "EmulsionTimeCourse(unpairable)", lambda: EmulsionTimeCourse(
+        [mk_em(1)[0] for _ in range(n_e)], times=[float(k) for k in range(n_t)]))
+    rec.check(not bad.ok, "aligned",
+              f"EmulsionTimeCourse({n_e} emulsions, times of length {n_t}) was accepted and holds "
+              f"{len(bad.result.emulsions) if bad.ok else '?'} emulsions / {len(bad.result.times) if bad.ok else '?'} times; {label}")
     for op in seq:
         if op == 0:  # append default time
             em, mm = mk_em(int(rng.integers(0, 3)))
